@@ -273,6 +273,18 @@ func (vc *VC) havocResult(v ssa.Value, c *ssa.CallCommon, st *State) *TV {
 
 // specialCall: hooks for calls with engine-native semantics.
 func (vc *VC) specialCall(key string, c *ssa.CallCommon, args []TV, v ssa.Value, st *State, pos token.Pos) *TV {
+	// mutexes taken and released by the function (only tracked where the contract asks for it)
+	if vc.fc != nil && vc.fc.Flags["no-blocking-under-lock"] && len(args) > 0 {
+		B := types.Typ[types.Bool]
+		switch key {
+		case "(*sync.Mutex).Lock", "(*sync.RWMutex).Lock", "(*sync.RWMutex).RLock":
+			vc.heapKeySort("#held", B)
+			vc.heapWrite(st, "#held", B, args[0].S, "true")
+		case "(*sync.Mutex).Unlock", "(*sync.RWMutex).Unlock", "(*sync.RWMutex).RUnlock":
+			vc.heapKeySort("#held", B)
+			vc.heapWrite(st, "#held", B, args[0].S, "false")
+		}
+	}
 	return nil
 }
 
